@@ -307,6 +307,104 @@ func obsOf(status int, hdr http.Header, body string) map[string]interface{} {
 		"trace": append([]string{}, rec.Trace...), "errs": append([]string{}, rec.Errs...), "reply": rec.Reply}
 }
 
+// doJSON decodes data into a new value of the named generated type and encodes it again.
+func doJSON(typ, data string) map[string]interface{} {
+	t, ok := modelTypes[typ]
+	if !ok {
+		return map[string]interface{}{"err": "no-type"}
+	}
+	v := reflect.New(t)
+	if err := json.Unmarshal([]byte(data), v.Interface()); err != nil {
+		return map[string]interface{}{"unmarshal_err": err.Error()}
+	}
+	out, err := json.Marshal(v.Interface())
+	if err != nil {
+		return map[string]interface{}{"marshal_err": err.Error()}
+	}
+	return map[string]interface{}{"out": string(out)}
+}
+
+type methodStep struct {
+	M    string            ` + "`json:\"m\"`" + `
+	Args []json.RawMessage ` + "`json:\"args\"`" + `
+}
+
+// doMethods makes a value of the named type (zero, or decoded from data), calls the listed methods on it in order
+// (arguments decoded from JSON into the parameter types) and reports every result and the value's final encoding.
+func doMethods(typ, data string, steps []methodStep) map[string]interface{} {
+	t, ok := modelTypes[typ]
+	if !ok {
+		return map[string]interface{}{"err": "no-type"}
+	}
+	v := reflect.New(t)
+	if data != "" {
+		if err := json.Unmarshal([]byte(data), v.Interface()); err != nil {
+			return map[string]interface{}{"unmarshal_err": err.Error()}
+		}
+	}
+	results := []interface{}{}
+	errT := reflect.TypeOf((*error)(nil)).Elem()
+	for _, st := range steps {
+		m := v.MethodByName(st.M)
+		if !m.IsValid() {
+			results = append(results, map[string]interface{}{"no_method": st.M})
+			continue
+		}
+		mt := m.Type()
+		if mt.NumIn() != len(st.Args) {
+			results = append(results, map[string]interface{}{"bad_arity": st.M})
+			continue
+		}
+		args := make([]reflect.Value, mt.NumIn())
+		bad := ""
+		for i := range args {
+			a := reflect.New(mt.In(i))
+			if err := json.Unmarshal(st.Args[i], a.Interface()); err != nil {
+				bad = err.Error()
+			}
+			args[i] = a.Elem()
+		}
+		if bad != "" {
+			results = append(results, map[string]interface{}{"bad_arg": bad})
+			continue
+		}
+		outs := m.Call(args)
+		res := map[string]interface{}{}
+		vals := []interface{}{}
+		for _, o := range outs {
+			if o.Type().Implements(errT) || o.Type() == errT {
+				if !o.IsNil() {
+					res["error"] = o.Interface().(error).Error()
+				}
+				continue
+			}
+			var iv interface{}
+			if o.IsValid() && o.CanInterface() {
+				iv = o.Interface()
+			}
+			b, err := json.Marshal(iv)
+			if err != nil {
+				vals = append(vals, map[string]interface{}{"marshal_err": err.Error()})
+				continue
+			}
+			dyn := ""
+			if o.Kind() == reflect.Interface && !o.IsNil() {
+				dyn = o.Elem().Type().String()
+			}
+			vals = append(vals, map[string]interface{}{"json": string(b), "dyn": dyn})
+		}
+		res["values"] = vals
+		results = append(results, res)
+	}
+	final := map[string]interface{}{"results": results}
+	if b, err := json.Marshal(v.Interface()); err != nil {
+		final["marshal_err"] = err.Error()
+	} else {
+		final["out"] = string(b)
+	}
+	return final
+}
+
 func main() {
 	in := bufio.NewReaderSize(os.Stdin, 1<<20)
 	out := bufio.NewWriter(os.Stdout)
@@ -317,6 +415,9 @@ func main() {
 				Do   string            ` + "`json:\"do\"`" + `
 				Fn   string            ` + "`json:\"fn\"`" + `
 				Args []json.RawMessage ` + "`json:\"args\"`" + `
+				Type string            ` + "`json:\"type\"`" + `
+				Data string            ` + "`json:\"data\"`" + `
+				Steps []methodStep     ` + "`json:\"steps\"`" + `
 				Req  wireReq           ` + "`json:\"req\"`" + `
 				Opt  serveOpt          ` + "`json:\"opt\"`" + `
 				Rsp  struct {
@@ -345,6 +446,10 @@ func main() {
 						resetRec()
 						curOpt = msg.Opt
 						resp = serve(msg.Req, msg.Opt)
+					case "json":
+						resp = doJSON(msg.Type, msg.Data)
+					case "methods":
+						resp = doMethods(msg.Type, msg.Data, msg.Steps)
 					case "roundtrip":
 						resp = doClient(msg.Fn, msg.Args)
 						if w, ok := resp["req"].(wireReq); ok {
